@@ -249,6 +249,9 @@ func (e *Env) encAddrStr(s string) string {
 			return fmt.Sprintf("1 %d", i)
 		}
 	}
+	if s == e.gov {
+		return "0 900" // the module authority: account 900 of the model
+	}
 	return "-1 -1"
 }
 
